@@ -27,9 +27,9 @@ type Config struct {
 	// pre-filled, every other one already closed, the rest closed later by a goroutine.  (On the virtual
 	// scheduler this is just one of the explored schedules: the producers run first; the field is ignored.)
 	Prefill bool `json:"prefill,omitempty"`
-	// joinsc: the slice handed to the emitted function, as indices into Items/Caps — the SAME channel may occur at
-	// several positions ([0 1 0]).  nil = every channel once, in order.  Duplicated channels are outside the LTS
-	// (which has one input per position): these runs are checked by the observable clauses only.
+	// joinsc / joincc: the slice handed to the emitted function (the sequence sent on the outer channel), as
+	// indices into Items/Caps — the SAME channel may occur at several positions ([0 1 0]).  nil = every channel
+	// once, in order.  The emitted code listens once to a channel that is given twice (K/JoinWG: `seen`).
 	Slice []int    `json:"slice,omitempty"`
 	N     int      `json:"n,omitempty"`    // do: number of functions
 	Errs  []int    `json:"errs,omitempty"` // do: 0 = nil error, otherwise the error's id
@@ -113,7 +113,15 @@ func (c Config) Sexp() string {
 		b.WriteString("))")
 		return b.String()
 	}
-	b.WriteString("(cfg (ocap " + strconv.Itoa(c.OCap) + ") (ins")
+	b.WriteString("(cfg (ocap " + strconv.Itoa(c.OCap) + ")")
+	if c.Slice != nil {
+		b.WriteString(" (slice")
+		for _, p := range c.Slice {
+			b.WriteString(" " + strconv.Itoa(p))
+		}
+		b.WriteString(")")
+	}
+	b.WriteString(" (ins")
 	for i := range c.Items {
 		b.WriteString(" (" + strconv.Itoa(c.Caps[i]))
 		for _, v := range c.Items[i] {
@@ -390,11 +398,11 @@ func FmapChConfigs(items, maxCap int) []Config {
 	return out
 }
 
-// DupSliceConfigs: slice-of-channels Join whose slice holds one channel twice or three times.
-func DupSliceConfigs(items, maxCap int) []Config {
+// DupSliceConfigs: slice-of-channels / chan-of-chan Join given one channel twice or three times.
+func DupSliceConfigs(sys string, items, maxCap int) []Config {
 	var out []Config
 	shapes := [][]int{{0, 0}, {0, 1, 0}, {0, 0, 1}, {1, 0, 0, 0}, {0, 1, 1, 0}}
-	for _, variant := range Variants["joinsc"] {
+	for _, variant := range Variants[sys] {
 		for _, sl := range shapes {
 			n := 0
 			for _, j := range sl {
@@ -408,7 +416,7 @@ func DupSliceConfigs(items, maxCap int) []Config {
 					for i := range counts {
 						counts[i], caps[i] = k, cp
 					}
-					out = append(out, Config{Sys: "joinsc", Variant: variant, Caps: caps, Items: mkItems(counts), Slice: sl})
+					out = append(out, Config{Sys: sys, Variant: variant, OCap: cp, Caps: caps, Items: mkItems(counts), Slice: sl})
 				}
 			}
 		}
